@@ -37,6 +37,13 @@ REGISTRY = {
                 explanation="E4 decision tables: method rewriting over (status cell x method) from as_new_flow (R15.1), "
                             "redirect detection over all status codes from the advance function (R15.2), origin of the "
                             "reported status (R15.3); compared with tables written from the property statement."),
+    "C17": dict(modules=["rules_c17"], min_instances=6, exhaustive=True, trusted_base=TB,
+                explanation="E4 abstract interpretation of the first write of every public entry (Call::without_body / "
+                            "Call::with_body + write; Flow::new [+ send_body_despite_method] + proceed + write), header "
+                            "lookups as pure predicates: the computed acceptance table over (version x method x host count x "
+                            "host class x content-length count x content-length class x chunked) is compared with the table "
+                            "written from the property statement (R17.1/R17.2); refusal paths are checked to precede the output "
+                            "writer and to store nothing (R17.3)."),
 }
 
 _PENDING = "check not built yet in this round (planned static rules: DESIGN.md section 4)"
@@ -44,13 +51,21 @@ NOT_APPLICABLE = {
     "C01": _PENDING, "C02": _PENDING, "C03": _PENDING, "C04": _PENDING, "C05": _PENDING,
     "C07": _PENDING, "C08": _PENDING, "C09": _PENDING, "C10": _PENDING, "C11": _PENDING,
     "C12": _PENDING, "C16": _PENDING,
-    "C17": _PENDING, "C18": _PENDING, "C20": _PENDING,
+    "C18": _PENDING, "C20": _PENDING,
     "C19": "quantitative liveness claim over two run-time lengths and hex-digit counts: no clause is visible in "
            "the shape of the code without evaluating that arithmetic (a solver or execution would be another "
            "technique family); a structural proxy would fire on correct rewrites. Not decided by static analysis.",
 }
 
 MANIFEST_META = {
+    "C17": dict(
+        technique="abstract interpretation over MIR (finite-domain acceptance table) + effect/ordering rules",
+        design_ref="DESIGN.md section 4 C17",
+        level_text="Exhaustive acceptance table per public entry over all five http versions x nine methods x header "
+                   "cardinalities and value classes x chunked x constructor/despite flag; plus must-precede (analysis before "
+                   "writer), no-store-on-refusal and not-cached-on-error rules.",
+        level_note="Trusted: rustc MIR; axioms for header accessors/iterator counting as pure atoms; iterator consistency "
+                   "(count==0 iff first()==None) used to exclude infeasible cells; extension methods are don't-care."),
     "C13": dict(
         technique="abstract interpretation over MIR: must-pass-through, ordering and decision-table rules on event paths",
         design_ref="DESIGN.md section 4 C13",
